@@ -6,6 +6,7 @@
 package c17
 
 import (
+	"bytes"
 	"context"
 	"encoding/json"
 	"fmt"
@@ -49,7 +50,7 @@ var opAlphabet = []string{"map", "filter", "flatmap", "head", "fold", "reduce", 
 
 func genCase(t *rapid.T) Case {
 	var c Case
-	c.Kind = rapid.SampledFrom([]string{"op", "op", "op", "op", "source", "multi", "framereader", "readfull", "scanner"}).Draw(t, "kind")
+	c.Kind = rapid.SampledFrom([]string{"op", "op", "op", "op", "source", "multi", "framereader", "readfull", "scanner", "decoding"}).Draw(t, "kind")
 	switch c.Kind {
 	case "op":
 		spec := progen.Gen(t, progen.Opts{MaxOps: 1, Ops: opAlphabet, NoObserver: true, MaxRows: 300, MaxShards: 3})
@@ -250,6 +251,35 @@ func runCase(c Case) (err error) {
 		if e := seqEq(s, res.Rows, rows); e != nil {
 			return fmt.Errorf("MultiReader over %d sub-readers: %v", c.Split, e)
 		}
+	case "decoding":
+		// the rows are written as a stream of batches whose sizes follow script 0 and read back
+		// through the decoding reader with the destination-size schedule
+		var buf bytes.Buffer
+		w := sliceio.NewEncodingWriter(&buf)
+		sizes := noZeros(script(0))
+		if len(sizes) == 0 {
+			sizes = []vgen.Chunk{{N: 128}}
+		}
+		for pos, k := 0, 0; pos < len(rows); k++ {
+			n := sizes[k%len(sizes)].N
+			if pos+n > len(rows) {
+				n = len(rows) - pos
+			}
+			if e := w.Write(ctx, progen.FrameOf(s, rows[pos:pos+n])); e != nil {
+				return fmt.Errorf("harness: encoding: %v", e)
+			}
+			pos += n
+		}
+		res, contract := progen.Drain(ctx, sliceio.NewDecodingReader(&buf), s, c.Dest, maxReads(len(rows)))
+		if contract != nil {
+			return fmt.Errorf("decoding reader: %v", contract)
+		}
+		if res.Err != nil {
+			return fmt.Errorf("decoding reader: unexpected error %v", res.Err)
+		}
+		if e := seqEq(s, res.Rows, rows); e != nil {
+			return fmt.Errorf("decoding reader (batch sizes %v): %v", sizes, e)
+		}
 	case "framereader":
 		res, contract := progen.Drain(ctx, sliceio.FrameReader(progen.FrameOf(s, rows)), s, c.Dest, maxReads(len(rows)))
 		if contract != nil {
@@ -409,7 +439,7 @@ const testName = "TestVerifC17Readers"
 
 func TestVerifC17Readers(t *testing.T) {
 	rec := vt.New("C17", "readers",
-		"rapid: (a) every operator's reader obtained through the public Slice.Reader(shard, deps) for Map, Filter, Flatmap, Head, Fold, Reduce (1..4 sorted streams), Cogroup (1..3 inputs), WriterFunc, Scan and the sources Const, ReaderFunc, ScanReader, with chunking readers as dependencies (arbitrary chunk sizes, zero-row reads except for merge inputs, EOF with or after the last rows); (b) sliceio.MultiReader, FrameReader, ReadFull, Scanner (Scan and Scanv, wrong arity/type); destination-size schedules 1..300, internal vector size {1,2,4,128}; oracle: rows equal the reference (sequence; multiset for Fold/Reduce/Cogroup) whatever the schedule, 0<=n<=len(dest), rows outside the destination view untouched, frames delivered earlier unchanged; non-trivial = the stream is longer than the first destination or the internal vector; distinct by case hash")
+		"rapid: (a) every operator's reader obtained through the public Slice.Reader(shard, deps) for Map, Filter, Flatmap, Head, Fold, Reduce (1..4 sorted streams), Cogroup (1..3 inputs), WriterFunc, Scan and the sources Const, ReaderFunc, ScanReader, with chunking readers as dependencies (arbitrary chunk sizes, zero-row reads except for merge inputs, EOF with or after the last rows); (b) sliceio.MultiReader, FrameReader, ReadFull, Scanner (Scan and Scanv, wrong arity/type) and the decoding reader over a stream of batches of generated sizes; destination-size schedules 1..300, internal vector size {1,2,4,128}; oracle: rows equal the reference (sequence; multiset for Fold/Reduce/Cogroup) whatever the schedule, 0<=n<=len(dest), rows outside the destination view untouched, frames delivered earlier unchanged; non-trivial = the stream is longer than the first destination or the internal vector; distinct by case hash")
 	docs, only := vt.Replays(testName)
 	for _, d := range docs {
 		var c Case
